@@ -496,6 +496,8 @@ MODULES = {
     'MatchGen': _lazy('gen_match', 'gen_match'),
     'ExprGen': _lazy('gen_expr', 'gen_expr'),
     'HandlersGen': _lazy('gen_handlers', 'gen_handlers'),
+    'DispatchGen': _lazy('gen_dispatch', 'gen_dispatch'),
+    'DetGen': _lazy('gen_det', 'gen_det'),
 }
 
 if __name__ == '__main__':
